@@ -87,7 +87,7 @@ theorem loopStep_uniform (env : Env) (wf : WF env) (s : State E) (hu : UniformOn
     UniformOn env.owned (loopStep env s).P := by
   have hsub : ∀ i ∈ (cfgOf env s).selected, i ∈ (cfgOf env s).owned := fun i hi => selOf_sub env wf s i hi
   have hup : UniformOn env.owned (pass env s).P' :=
-    uniform_preserved (cfgOf env s) s.P s.now s.now env.exec hsub hu
+    uniform_preserved (cfgOf env s) (vis env s) s.now s.now env.exec hsub (vis_uniform env s hu)
   rcases loopStep_form env s with h | ⟨_, h⟩ | h | ⟨_, h⟩ | h | h | ⟨_, _, _, h⟩ <;> rw [h]
   · exact hu
   · exact hu
@@ -135,7 +135,7 @@ theorem open_handle_pending (env : Env) (s : State E) (hh : isHandler s = true)
       cases he : (cfgOf env s).selected.isEmpty
       · rfl
       · exfalso
-        have := cycle_no_handlers (cfgOf env s) s.P s.now s.now env.exec hr he
+        have := cycle_no_handlers (cfgOf env s) (vis env s) s.now s.now env.exec hr he
         unfold pass at hc
         rw [this] at hc
         cases hc
@@ -166,7 +166,7 @@ theorem open_next (env : Env) (s : State E) (hp : s.pending = true) (hg : s.gone
       cases he : (cfgOf env s).selected.isEmpty
       · rfl
       · exfalso
-        have := cycle_no_handlers (cfgOf env s) s.P s.now s.now env.exec hr he
+        have := cycle_no_handlers (cfgOf env s) (vis env s) s.now s.now env.exec hr he
         unfold pass at hc
         rw [this] at hc
         cases hc
@@ -267,14 +267,14 @@ theorem quiescent_settled (env : Env) (s : State E) (hp : s.pending = true) (hg 
       · have hmk := hcm hc
         have hh : isHandler s = true := by
           cases hh : isHandler s
-          · have := (cycle_not_handler_reason_invoked (cfgOf env s) s.P s.now s.now env.exec hh).2
+          · have := (cycle_not_handler_reason_invoked (cfgOf env s) (vis env s) s.now s.now env.exec hh).2
             unfold pass at hc
             rw [this] at hc; cases hc
           · rfl
         have hnone : ∀ i ∈ env.owned, (pass env s).P' i = none := by
           cases he : (cfgOf env s).selected.isEmpty
-          · exact closed_purges (cfgOf env s) s.P s.now s.now env.exec hh he hc
-          · exact (closed_purges_skip (cfgOf env s) s.P s.now s.now env.exec hh he).2
+          · exact closed_purges (cfgOf env s) (vis env s) s.now s.now env.exec hh he hc
+          · exact (closed_purges_skip (cfgOf env s) (vis env s) s.now s.now env.exec hh he).2
         refine ⟨hnone, hadjN _ _ _, hg, ?_, ?_⟩
         · intro h1
           have : s.marked = true := h1
@@ -338,8 +338,10 @@ theorem settled_event_no_write (env : Env) (t : State E) (hs : Settled env t) :
       simp [hb, hi, hmk, C05.detect, C05.detectReason, C14.reasonStr]
       decide
     have hr : handlerReasons.contains (cfgOf env ({ t with pending := true } : State E)).reason = false := hh
-    have hid : ∀ j, (pass env ({ t with pending := true } : State E)).P' j = t.P j :=
-      fun j => noop_pass_id hr hn j
+    have hid : ∀ j, (pass env ({ t with pending := true } : State E)).P' j = t.P j := by
+      intro j
+      rw [pass_eq, vis_info env _ hh]
+      exact noop_pass_id hr hn j
     have hcl : (pass env ({ t with pending := true } : State E)).closed = false :=
       (cycle_not_handler_reason_invoked _ _ _ _ _ hr).2
     have hdl : (pass env ({ t with pending := true } : State E)).delays = [] := by
@@ -457,6 +459,28 @@ theorem isHandler_nextState (env : Env) (s : State E) (hcl : (pass env s).closed
     causeOf_congr s _ (by simp [nextState, hcl]) rfl rfl (by simp [nextState, hcl]) rfl rfl
   unfold isHandler; rw [hc]
 
+/-- inside an open cycle nothing is left out any more: after an open pass every record carries this cause's purpose -/
+theorem vis_nextState (env : Env) (wf : WF env) (s : State E) (hh : isHandler s = true)
+    (hc : (pass env s).closed = false) (a : Tick) (b : Bool) (c : Nat) :
+    vis env (nextState env s a b c) = (pass env s).P' := by
+  have hsub : ∀ i ∈ (cfgOf env s).selected, i ∈ (cfgOf env s).owned := fun i hi => selOf_sub env wf s i hi
+  have hne : (cfgOf env s).selected.isEmpty = false := by
+    cases he : (cfgOf env s).selected.isEmpty
+    · rfl
+    · exfalso
+      have := cycle_no_handlers (cfgOf env s) (vis env s) s.now s.now env.exec hh he
+      rw [pass_eq, this] at hc
+      cases hc
+  have hcz : causeOf (nextState env s a b c) = causeOf s :=
+    causeOf_congr s _ (by simp [nextState, hc]) rfl rfl (by simp [nextState, hc]) rfl rfl
+  have h0 := noExtras_after (cfgOf env s) (vis env s) s.now s.now env.exec hsub hh hne
+  apply vis_of_noExtras env (nextState env s a b c)
+  intro i ho r hPi
+  have := h0 i ho r hPi
+  show r.purpose = none ∨ r.purpose = some (C14.reasonStr (causeOf (nextState env s a b c)).reason)
+  rw [hcz]
+  exact this
+
 theorem info_stays (env : Env) (s : State E) (hh : isHandler s = false) : isHandler (loopStep env s) = false := by
   have hr : handlerReasons.contains (cfgOf env s).reason = false := hh
   have hcl : (pass env s).closed = false := (cycle_not_handler_reason_invoked _ _ _ _ _ hr).2
@@ -510,7 +534,7 @@ theorem closings_zero (env : Env) (n : Nat) :
       · simp [hg]
       · have hr : handlerReasons.contains (cfgOf env s).reason = false := hh
         have hc : (pass env s).closed = false :=
-          (cycle_not_handler_reason_invoked (cfgOf env s) s.P s.now s.now env.exec hr).2
+          (cycle_not_handler_reason_invoked (cfgOf env s) (vis env s) s.now s.now env.exec hr).2
         simp [hc]
     rw [h0, Nat.zero_add]
     apply ih
@@ -539,7 +563,7 @@ theorem after_closing (env : Env) (s : State E) (hp : s.pending = true) (hg : s.
       · rfl
       · have := handler_marked_blocked s hh hm1
         rw [hb1] at this; cases this
-    have := (cycle_not_handler_reason_invoked (cfgOf env s) s.P s.now s.now env.exec hh).2
+    have := (cycle_not_handler_reason_invoked (cfgOf env s) (vis env s) s.now s.now env.exec hh).2
     unfold pass at hc
     rw [this] at hc; cases hc
   · right
@@ -554,9 +578,9 @@ def toSteps (env : Env) : List (Tick × List Id) → List C02.StepV
   | [] => []
   | (a, l) :: rest => ⟨a, a, env.exec, l, env.limits, env.lifecycle⟩ :: toSteps env rest
 
-theorem invs_eq (env : Env) (hpm : env.prematch = true) (n : Nat) :
+theorem invs_eq (env : Env) (wf : WF env) (hpm : env.prematch = true) (n : Nat) :
     ∀ (s : State E), s.pending = true → s.gone = false → adjusting env s = false → isHandler s = true →
-      invsOf env n s = invokedSeqV env.owned (C14.reasonStr (causeOf s).reason) s.P (toSteps env (stepsOf env n s)) := by
+      invsOf env n s = invokedSeqV env.owned (C14.reasonStr (causeOf s).reason) (vis env s) (toSteps env (stepsOf env n s)) := by
   induction n with
   | zero => intro s _ _ _ _; rfl
   | succ n ih =>
@@ -565,9 +589,9 @@ theorem invs_eq (env : Env) (hpm : env.prematch = true) (n : Nat) :
     show (pass env s).invoked :: _ = (pass env s).invoked :: _
     congr 1
     cases hc : (pass env s).closed
-    · have hc2 : (cycle (cfgOf env s) s.P s.now s.now env.exec).closed = false := hc
+    · have hc2 : (cycle (cfgOf env s) (vis env s) s.now s.now env.exec).closed = false := hc
       have hc3 : (cycle (cfgAt env.owned (C14.reasonStr (causeOf s).reason)
-          ⟨s.now, s.now, env.exec, selOf env s, env.limits, env.lifecycle⟩) s.P s.now s.now env.exec).closed = false := hc
+          ⟨s.now, s.now, env.exec, selOf env s, env.limits, env.lifecycle⟩) (vis env s) s.now s.now env.exec).closed = false := hc
       simp only [hc3, Bool.false_eq_true, if_false]
       obtain ⟨now', w, h⟩ := open_next env s hp hg ha hpm hh hc
       have hcz : causeOf (loopStep env s) = causeOf s := by
@@ -580,11 +604,29 @@ theorem invs_eq (env : Env) (hpm : env.prematch = true) (n : Nat) :
         show ((env.prematch && env.changeReq && !s.blocked && !s.marked) ||
               (!(env.prematch && env.changeReq) && s.blocked)) = false
         rw [← adjusting_eq]; exact ha
-      have hP : (loopStep env s).P = (cycle (cfgOf env s) s.P s.now s.now env.exec).P' := by rw [h]; rfl
-      rw [ih (loopStep env s) hp' hg' ha' hh', hcz, hP]
+      have hP : (loopStep env s).P = (cycle (cfgOf env s) (vis env s) s.now s.now env.exec).P' := by rw [h]; rfl
+      have hsub : ∀ i ∈ (cfgOf env s).selected, i ∈ (cfgOf env s).owned := fun i hi => selOf_sub env wf s i hi
+      have hne : (cfgOf env s).selected.isEmpty = false := by
+        cases he : (cfgOf env s).selected.isEmpty
+        · rfl
+        · exfalso
+          have := cycle_no_handlers (cfgOf env s) (vis env s) s.now s.now env.exec hh he
+          rw [this] at hc2
+          cases hc2
+      -- inside the open cycle nothing is left out any more: every record carries this cause's purpose
+      have hV : vis env (loopStep env s) = (loopStep env s).P := by
+        apply vis_of_noExtras
+        have h0 := noExtras_after (cfgOf env s) (vis env s) s.now s.now env.exec hsub hh hne
+        intro i ho r hPi
+        rw [hP] at hPi
+        have := h0 i ho r hPi
+        show r.purpose = none ∨ r.purpose = some (C14.reasonStr (causeOf (loopStep env s)).reason)
+        rw [hcz]
+        exact this
+      rw [ih (loopStep env s) hp' hg' ha' hh', hcz, hV, hP]
       rfl
     · have hc3 : (cycle (cfgAt env.owned (C14.reasonStr (causeOf s).reason)
-          ⟨s.now, s.now, env.exec, selOf env s, env.limits, env.lifecycle⟩) s.P s.now s.now env.exec).closed = true := hc
+          ⟨s.now, s.now, env.exec, selOf env s, env.limits, env.lifecycle⟩) (vis env s) s.now s.now env.exec).closed = true := hc
       simp [hc3]
 
 theorem toSteps_sub (env : Env) (wf : WF env) (k : Nat) :
